@@ -76,7 +76,10 @@ type sourceCase struct {
 	History []op `json:"history"` // non-swapping calls made before the probe
 	// Unswapped: default-source NewMnemonic calls made after the history with nothing installed
 	Unswapped []op `json:"unswapped,omitempty"`
-	TeeNew    []op `json:"tee_new"` // NewMnemonic calls made through a recording tee around the default source
+	// Env: hostile values for environment variables whose names occur as literals in the code under
+	// test, and a few generic ones; the default source must not depend on the environment
+	Env    []string `json:"env,omitempty"`
+	TeeNew []op     `json:"tee_new"` // NewMnemonic calls made through a recording tee around the default source
 }
 
 // seenDefault remembers default-source outputs across cases of this process:
@@ -84,7 +87,7 @@ type sourceCase struct {
 var seenDefault = map[string]string{}
 
 var c07Check = register("C07", "c07.source", func(c *sourceCase) error {
-	p := &plan{Phases: []phase{{Goroutines: [][]op{c.History}}}, Probe: true, TeeNew: c.TeeNew, Unswapped: c.Unswapped}
+	p := &plan{Phases: []phase{{Goroutines: [][]op{c.History}}}, Probe: true, TeeNew: c.TeeNew, Unswapped: c.Unswapped, Env: c.Env}
 	r := spawnChild(p, false)
 	if r.Report == nil {
 		if r.Crashed {
@@ -148,7 +151,7 @@ var c07Check = register("C07", "c07.source", func(c *sourceCase) error {
 	return nil
 })
 
-const c07Rule = "C07: (a) fresh child processes each run a rapid-generated history of non-swapping calls (all entry points, all languages, failing calls) and are then probed through the verif hook: the value returned by the first swap must be == crypto/rand.Reader (interface identity); NewMnemonic calls made through a recording tee around that source must equal the reference encoding of the first 4n/3 bytes the tee delivered; no output may repeat across processes or calls. Before the probe each child also makes 0..40 default-source calls of mixed sizes with nothing installed. (b) in-process: >= 4500 genuinely unswapped outputs of mixed sizes back to back, then every (n, language) through the tee; unswapped outputs are decoded and must show no run of >= 6 equal 0x00/0xff bytes, no >= 5 trailing zero bytes, no repetition, and every entropy bit within 8 sigma of 1/2. Non-trivial: a child whose history contains >= 1 call before the probe; distinct by (history, tee calls)"
+const c07Rule = "C07: (a) fresh child processes each run a rapid-generated history of non-swapping calls (all entry points, all languages, failing calls) and are then probed through the verif hook: the value returned by the first swap must be == crypto/rand.Reader (interface identity); NewMnemonic calls made through a recording tee around that source must equal the reference encoding of the first 4n/3 bytes the tee delivered; no output may repeat across processes or calls. One child in three runs under a hostile environment (every variable name that occurs as a literal in the code under test set to /dev/zero, 1, ...). Before the probe each child also makes 0..40 default-source calls of mixed sizes with nothing installed. (b) in-process: >= 4500 genuinely unswapped outputs of mixed sizes back to back, then every (n, language) through the tee; unswapped outputs are decoded and must show no run of >= 6 equal 0x00/0xff bytes, no >= 5 trailing zero bytes, no repetition, and every entropy bit within 8 sigma of 1/2. Non-trivial: a child whose history contains >= 1 call before the probe; distinct by (history, tee calls)"
 
 func TestC07_Children(t *testing.T) {
 	cov.Rule(c07Rule)
@@ -183,6 +186,18 @@ func TestC07_Children(t *testing.T) {
 			uns[i] = op{Kind: "new", N: int64(gen.Count().Draw(rt, "un")), Lang: int64(implLang[gen.Lang().Draw(rt, "ulang")])}
 		}
 		c := &sourceCase{History: hist, TeeNew: tee, Unswapped: uns}
+		if rapid.IntRange(0, 2).Draw(rt, "hostile-env") == 0 {
+			names := append(envNames(), "GODEBUG_VERIF", "RANDOM_DEVICE", "RANDFILE", "BIP39_RANDOM", "BIP39_SEED", "GOMAXPROCS")
+			val := rapid.SampledFrom([]string{"/dev/zero", "/dev/null", "1", "0", "true", "/dev/urandom"}).Draw(rt, "env-value")
+			for _, n := range names {
+				if n == "GOMAXPROCS" {
+					c.Env = append(c.Env, "GOMAXPROCS=1")
+					continue
+				}
+				c.Env = append(c.Env, n+"="+val)
+			}
+			cov.Class("hostile-environment")
+		}
 		cov.ClassN("unswapped-default-outputs", nu)
 		cov.Eval(1)
 		cov.ClassN("history-calls", len(hist))
